@@ -395,6 +395,8 @@ let rec handle (line : string) : string =
     Printf.sprintf "%s %s | %s | %s" (hex_of_bytes (encode f)) (hex_of_bytes (encode_nl f))
       (one (encode f)) (one (encode_nl f))
   | ["NEWS"; _] -> "OK"   (* which static-array conversions exist is API surface; none may yield more than 255 bytes *)
+  | ["NEWZ"; len] ->
+    (match data_try_new_len (num_big len) with None -> "OK" | Some _ -> "ER TOOLONG")
   | ["NEW"; len] ->
     (match data_try_new (List.init (int_of_string len) (fun _ -> N0)) with
      | Ok _ -> "OK" | Err e -> str_ferr e)
